@@ -256,19 +256,23 @@ class DQN(RLAlgorithm):
         with torch.no_grad():
             q_values = self.actor(obs)
 
-        # Masked random actions
-        masked_random_values = torch.rand_like(q_values) * action_mask
+        illegal_actions = (1 - action_mask).bool()
+
+        # Masked random actions (an illegal action must lose even against a draw of exactly 0)
+        masked_random_values = torch.rand_like(q_values).masked_fill(illegal_actions, -1.0)
         masked_random_actions = torch.argmax(masked_random_values, dim=-1)
 
         # Masked policy actions
-        masked_q_values = q_values.masked_fill((1 - action_mask).bool(), float("-inf"))
+        masked_q_values = q_values.masked_fill(illegal_actions, float("-inf"))
         masked_policy_actions = torch.argmax(masked_q_values, dim=-1)
 
         # actions_random = torch.randint_like(actions, n_act)
+        # uniform_() draws from [0, 1): explore with probability P(u < epsilon) = epsilon,
+        # i.e. never for epsilon = 0 and always for epsilon = 1
         use_policy = (
             torch.empty(masked_policy_actions.shape, device=q_values.device)
             .uniform_()
-            .gt(epsilon)
+            .ge(epsilon)
         )
 
         # Recompute actions with masking
